@@ -116,7 +116,9 @@ def directed_bases(base_id):
 
 
 def finding_scenarios(base_id):
-    """the two known findings, deterministically (so that every run reports them)"""
+    """regression schedules of the two defects this check found (both fixed in /repo since): a coordinator that
+    is loading while the group has a committed offset; seek_to_end / seek_to_beginning landing while a ListOffsets
+    for the other strategy is in flight"""
     log = [data(3), data(3), data(3), data(3)]
     a = {"id": base_id, "seed": 1, "brokers": 2, "partitions": 1, "iso": 0, "policy": "latest", "mode": "group_assign",
          "logs": {"0": copy.deepcopy(log)}, "log_start": {"0": 2}, "committed": {"0": 4}, "faults": {},
@@ -183,10 +185,7 @@ def project(sc, r, p):
         elif k == "c_lookup_err":
             tr.append(("LookupErr",))
         elif k == "c_lookup_ok":
-            if of_err is not None and of_err["top_level_only"] and e["c"] is None:
-                tr.append(("LookupSwallowed",))
-            else:
-                tr.append(("LookupOk", e["c"]))
+            tr.append(("LookupOk", e["c"]))
             of_err = None
         elif k == "c_committed_resp":
             tr.append(("CommittedResp", e["c"]))
@@ -578,13 +577,13 @@ def run(ck: Check):
         grid = [sc for i, sc in enumerate(grid) if i % 3 == ck.seed % 3 or sc["committed"] == {"0": 25}]
     bases += grid
     bases += finding_scenarios(150000)
-    bases += [gen_base(rng, i) for i in range(ck.n(40, 700))]
+    bases += [gen_base(rng, i) for i in range(ck.n(100, 700))]
     t0 = _t.time()
     results = c03.run_scenarios(bases, timeout=ck.n(600, 2400), script="c13_sim.py")
     # enumeration of the insertion points: every start-position event index of a sample of base runs
     inj_scs = []
     next_id = [200000]
-    n_inj_bases = ck.n(6, 60)
+    n_inj_bases = ck.n(12, 60)
     cand = [(sc, r) for sc, r in zip(bases, results) if r.get("ok") and not sc.get("inject") and not r.get("start_exc")]
     rng.shuffle(cand)
     # prefer bases that go through both lookups
